@@ -158,6 +158,9 @@ Record pcase := { pc_mirror : bool; pc_cmds : list cmd; pc_log : list lentry; pc
 Definition synced_map (ops : list mop) : list (Z * Z) := fold_left apply_mop ops [].
 Definition only_updates (ops : list mop) : bool := forallb (fun o => match o with MUpdate _ _ => true | _ => false end) ops.
 
+(* the number the harnesses use for an absent value (`None`, written as an empty body) *)
+Definition ABSENT : Z := (-7777)%Z.
+
 Definition crash_ok (l : list lentry) (c : crash) : bool :=
   let st := replay (firstn (N.to_nat (cr_at c)) l) in
   (cr_v c =? restored_value st 0)%Z && (cr_t c =? 0)%Z
@@ -166,8 +169,12 @@ Definition crash_ok (l : list lentry) (c : crash) : bool :=
   && (cr_sync_v c =? cr_v c)%Z && (cr_sync_t c =? 0)%Z
   && only_updates (cr_sync_m c) && zz_eqb (synced_map (cr_sync_m c)) (cr_m c)
   && match cr_sync_tm c with [] => true | _ => false end
-  (* never older than what a subscriber had already seen (the generated values increase) *)
-  && forallb (fun e => match e with LSentV _ 0 x => (x <=? cr_v c)%Z | _ => true end) (firstn (N.to_nat (cr_at c)) l).
+  (* never older than what a subscriber had already seen (the generated values increase; the absent value, an
+     empty body, stands outside that order) *)
+  && forallb (fun e => match e with
+                       | LSentV _ 0 x => (x =? ABSENT)%Z || (cr_v c =? ABSENT)%Z || (x <=? cr_v c)%Z
+                       | _ => true
+                       end) (firstn (N.to_nat (cr_at c)) l).
 
 Definition content_eqb (a b : content) : bool :=
   (restored_value a 0 =? restored_value b 0)%Z && (restored_value a 4 =? restored_value b 4)%Z
@@ -178,6 +185,11 @@ Definition content_eqb (a b : content) : bool :=
 Definition p_corr_bad (cs : list (N * pcase)) : list N :=
   map fst (filter (fun c => negb (content_eqb (replay (pc_log (snd c))) (expected (pc_mirror (snd c)) (pc_cmds (snd c)))
                                   && forallb (crash_ok (pc_log (snd c))) (pc_crashes (snd c)))) cs).
+
+(* the restart clause on its own, as an oracle: at every crash point the restarted agent holds what the store
+   held there (values, maps, what a sync reports), transient items their defaults *)
+Definition p_restart_bad (cs : list (N * pcase)) : list N :=
+  map fst (filter (fun c => negb (forallb (crash_ok (pc_log (snd c))) (pc_crashes (snd c)))) cs).
 
 (* provenance: whatever reaches the store under an item's id was reported by that very item (as an event or in a
    sync answer), and the write task never deletes; [cmds] lists what each item reported *)
